@@ -291,6 +291,22 @@ func run(p *kernel.Plan) (res *kernel.Result) {
 						default:
 							logger.E(ctx, lr.msg)
 						}
+					} else if o.N[3]%4 == 1 {
+						// Printf-style without operands: the format is the message
+						// with every percent sign escaped
+						f := strings.Replace(msgs[i], "%", "%%", -1) + " 100%%"
+						lr.msg = msgs[i] + " 100%"
+						logs[t][len(logs[t])-1] = lr
+						switch lr.level {
+						case 0:
+							logger.If(ctx, f)
+						case 1:
+							logger.Tf(ctx, f)
+						case 2:
+							logger.Wf(ctx, f)
+						default:
+							logger.Ef(ctx, f)
+						}
 					} else if spare {
 						lr.msg = msgs[i] + " 7%"
 						logs[t][len(logs[t])-1] = lr
